@@ -25,6 +25,40 @@ class Summary:
     def __init__(self, facts):
         self.facts = facts
         self.memo = {}
+        self.restore_memo = {}
+
+    def restores_from_params(self, body, all_fields):
+        """{field: param index} for helpers whose only effect on `field` is `self.field = <param k>` (a rollback helper)"""
+        key = body.npath
+        if key in self.restore_memo:
+            return self.restore_memo[key]
+        out = {}
+        bad = set()
+        eb = ExprBuilder(body)
+        for i in sorted(body.live_blocks()):
+            b = body.blocks[i]
+            for si, s in enumerate(b['st']):
+                if s['k'] != 'assign':
+                    continue
+                is_self, f = self_field(s['lhs'])
+                rv = s['rv']
+                if is_self and s['lhs']['p'] and f is not None:
+                    pk = [p for p in (proj_key(p) for p in s['lhs']['p']) if p != '*']
+                    src = eb._rvalue(rv, (), 0, (i, si)) if rv['k'] == 'use' else None
+                    if len(pk) == 1 and src is not None and src.kind == 'place' and src.root[0] == 'param' and \
+                            src.root[1] >= 2 and not src.fields and f not in out:
+                        out[f] = src.root[1]
+                    else:
+                        bad.add(f)
+                if rv['k'] in ('ref', 'rawptr') and (rv.get('mut') or rv['k'] == 'rawptr'):
+                    is_self2, f2 = self_field(rv['pl'])
+                    if is_self2 and f2 is not None:
+                        bad.add(f2)
+                    elif is_self2:
+                        bad |= set(all_fields)
+        out = {f: k for f, k in out.items() if f not in bad}
+        self.restore_memo[key] = out
+        return out
 
     def dirty_fields(self, body, all_fields, depth=3):
         """fields of *self a crate-local body with whole `&mut self` may modify"""
@@ -150,13 +184,27 @@ class RestoreAnalysis:
                     cbs = local_callee_bodies(self.F, c)
                     if not cbs:
                         dirty = set(self.fields)
+                        restores = {}
                     else:
                         dirty = set()
+                        restores = None
                         for cb in cbs:
                             dirty |= self.summary.dirty_fields(cb, self.fields)
+                            rp = self.summary.restores_from_params(cb, self.fields)
+                            restores = rp if restores is None else {f: k for f, k in restores.items() if rp.get(f) == k}
                     for f in dirty:
-                        if f in st:
-                            st[f] = DIRTY
+                        if f not in st:
+                            continue
+                        new = DIRTY
+                        k = (restores or {}).get(f)
+                        if k is not None and k - 1 < len(c.args):
+                            # the helper assigns self.f from its k-th parameter: a restore if that argument is a valid
+                            # snapshot of f
+                            sites = self._snapshot_sites(c.args[k - 1], f)
+                            if sites and all(x is not None for x in sites) and all(
+                                    self.snap_state.get(x, {}).get(f, CLEAN) == CLEAN for x in sites):
+                                new = RESTORED
+                        st[f] = new
         return st
 
     def _solve(self):
